@@ -39,11 +39,18 @@ func TrivialGetter(fn *ssa.Function) ([]string, bool) {
 // embedded-pointer hops keep their field names. Used for atom keys.
 func Canon(v ssa.Value) string { return canon(v, 0) }
 
+// paramIndex: parameters of top-level functions are $0,$1,...; parameters of
+// an anonymous function are $$0,$$1,... (so that a closure's own parameters
+// and the captured parameters of its parent do not collide).
 func paramIndex(p *ssa.Parameter) string {
 	fn := p.Parent()
+	pre := "$"
+	if fn.Parent() != nil {
+		pre = "$$"
+	}
 	for i, q := range fn.Params {
 		if q == p {
-			return fmt.Sprintf("$%d", i)
+			return fmt.Sprintf("%s%d", pre, i)
 		}
 	}
 	return p.Name()
@@ -202,6 +209,17 @@ func CanonAtom(cond ssa.Value) (string, bool) {
 	neg := false
 	cond, neg = Not(cond)
 	if bo, ok := cond.(*ssa.BinOp); ok {
+		// emptiness tests in all their spellings: len(x) == 0, != 0, > 0, >= 1, < 1, <= 0
+		if x, empty, ok := emptinessTest(bo); ok {
+			if b, isB := x.Type().Underlying().(*types.Basic); isB && b.Info()&types.IsString != 0 {
+				a, c := "\"\"", canon(x, 0)
+				if c < a {
+					a, c = c, a
+				}
+				return "==(" + a + "," + c + ")", neg != !empty
+			}
+			return "<(0,len(" + canon(x, 0) + "))", neg != empty
+		}
 		switch bo.Op {
 		case token.NEQ:
 			a, b := canon(bo.X, 0), canon(bo.Y, 0)
@@ -218,4 +236,50 @@ func CanonAtom(cond ssa.Value) (string, bool) {
 		}
 	}
 	return canon(cond, 0), neg
+}
+
+// emptinessTest recognises comparisons of len(x) with 0 / 1 and reports
+// whether the condition being true means "x is empty".
+func emptinessTest(bo *ssa.BinOp) (x ssa.Value, empty bool, ok bool) {
+	lenOf := func(v ssa.Value) (ssa.Value, bool) {
+		call, ok := v.(*ssa.Call)
+		if !ok {
+			return nil, false
+		}
+		if b, ok := call.Common().Value.(*ssa.Builtin); ok && b.Name() == "len" {
+			return call.Common().Args[0], true
+		}
+		return nil, false
+	}
+	op := bo.Op
+	l, r := bo.X, bo.Y
+	if _, isLen := lenOf(r); isLen {
+		// mirror: k op len(x)  ==  len(x) op' k
+		l, r = r, l
+		switch op {
+		case token.LSS:
+			op = token.GTR
+		case token.LEQ:
+			op = token.GEQ
+		case token.GTR:
+			op = token.LSS
+		case token.GEQ:
+			op = token.LEQ
+		}
+	}
+	x, isLen := lenOf(l)
+	if !isLen {
+		return nil, false, false
+	}
+	k, isK := IntConst(r)
+	if !isK {
+		return nil, false, false
+	}
+	switch {
+	case op == token.EQL && k == 0, op == token.LSS && k == 1, op == token.LEQ && k == 0:
+		return x, true, true
+	case op == token.NEQ && k == 0, op == token.GTR && k == 0, op == token.GEQ && k == 1:
+		return x, false, true
+	}
+	return nil, false, false
 }
